@@ -509,3 +509,45 @@ def run(ctx, rep, tier):
     structs.check_cull_policy(ctx, rep, "C01.n")
     from .shared import delegate
     delegate(ctx, rep, tier, "C08", ("C08.c",), "C01.o", "greedy case: the clause that runs is the one of maximal priority, each clause's priority looked up with its own key")
+
+
+# ---------------------------------------------------------------------------------------------------------------- C01.w
+def _containers_adopt_opening_actions(ctx, rep, tier):
+    """C01.w (F-112): a try, loop, foreach or action-only if hands the actions that open its body to whatever stands in front of it (`adopt_actions_from`). When such a block
+    is the HEAD of a statement sequence, the container that holds the sequence is what stands in front. Every container therefore asks the head it is given for its opening
+    actions - a container that merely stores the node loses them silently. Sibling rule: for every attribute a node class converts (`self.<a>.convert(..)` in its
+    convert), every method that fills that attribute from a parameter calls `<parameter>.adopt_actions_from()` (under an ActionSourceNode test)."""
+    model = ctx.model
+    rep.rule("C01.w", "every container asks the head of the statement sequence it is given for its opening actions (adopt_actions_from)")
+    n = 0
+    for cn, ci in model.classes.items():
+        conv = ci.methods.get("convert")
+        if conv is None or not model.is_subclass(cn, "Node"):
+            continue
+        attrs = set()
+        for c in ast.walk(conv):
+            if isinstance(c, ast.Call) and isinstance(c.func, ast.Attribute) and c.func.attr == "convert" and isinstance(c.func.value, ast.Attribute) and \
+                    isinstance(c.func.value.value, ast.Name) and c.func.value.value.id == "self" and c.func.value.attr != "next":
+                attrs.add(c.func.value.attr)
+        for mn, mf in ci.methods.items():
+            # (a parameter declared to be a Match is a pattern, not a statement sequence)
+            params = {a.arg for a in mf.args.args[1:] if not (a.annotation is not None and model.is_subclass(ast.unparse(a.annotation).strip("'\""), "Match"))}
+            for st in ast.walk(mf):
+                if isinstance(st, ast.Assign) and len(st.targets) == 1 and isinstance(st.targets[0], ast.Attribute) and isinstance(st.targets[0].value, ast.Name) and \
+                        st.targets[0].value.id == "self" and st.targets[0].attr in attrs and isinstance(st.value, ast.Name) and st.value.id in params:
+                    n += 1
+                    p = st.value.id
+                    adopts = any(isinstance(c, ast.Call) and isinstance(c.func, ast.Attribute) and c.func.attr == "adopt_actions_from" and isinstance(c.func.value, ast.Name) and c.func.value.id == p
+                                 for c in ast.walk(mf))
+                    rep.check(adopts, "C01.w", f"{cn}.{mn}", f"self.{st.targets[0].attr} = {p}: the head's opening actions are adopted first",
+                              f"{cn}.{mn} stores the statement sequence `{p}` without asking it for its opening actions: when the sequence starts with a try / loop / foreach / if, the actions at the "
+                              "top of that block are silently dropped (`optional { try { f = true; entered(); \"ba\"; } catch { } }` never sets f)", line=st.lineno)
+    rep.check(n >= 4, "C01.w", "Node classes", f"{n} container fill sites examined", "container fill sites not found")
+
+
+_run_w01 = run
+
+
+def run(ctx, rep, tier):
+    _run_w01(ctx, rep, tier)
+    _containers_adopt_opening_actions(ctx, rep, tier)
